@@ -111,6 +111,25 @@ fn clamp(v: &V) -> V {
     }
 }
 /// a type with a similar byte layout: text <-> blob, nat <-> nat8, principal <-> blob, int <-> nat, nat64 <-> int64 ...
+/// one field of one record (at any depth) gets a larger id that the record does not use
+fn renumber_field(r: &mut Rng, t: &T) -> T {
+    fn count(t: &T) -> usize { match t { T::Rec(fs) => (if fs.is_empty() { 0 } else { 1 }) + fs.iter().map(|f| count(&f.1)).sum::<usize>(), T::Variant(fs) => fs.iter().map(|f| count(&f.1)).sum(), T::Opt(x) | T::Vec(x) => count(x), _ => 0 } }
+    fn go(r: &mut Rng, t: &T, k: &mut isize) -> T {
+        match t {
+            T::Rec(fs) => {
+                let mut fs: Vec<(u32, T)> = fs.clone();
+                if !fs.is_empty() { *k -= 1; if *k == -1 { let j = r.below(fs.len() as u64) as usize; let mx = fs.iter().map(|f| f.0).max().unwrap_or(0); fs[j].0 = mx.saturating_add(1 + r.below(200) as u32); return T::rec(fs); } }
+                T::rec(fs.iter().map(|(i, x)| (*i, go(r, x, k))).collect())
+            }
+            T::Variant(fs) => T::variant(fs.iter().map(|(i, x)| (*i, go(r, x, k))).collect()),
+            T::Opt(x) => T::opt(go(r, x, k)), T::Vec(x) => T::vec(go(r, x, k)),
+            o => o.clone(),
+        }
+    }
+    let n = count(t); if n == 0 { return t.clone(); }
+    let mut k = r.below(n as u64) as isize;
+    go(r, t, &mut k)
+}
 fn lookalike(r: &mut Rng, t: &T) -> T {
     match t {
         T::Prim(p) => {
@@ -244,11 +263,12 @@ pub fn generate(prop: &str, thorough: bool, r: &mut Rng, em: &mut Emit) {
                 // the same value with padded lengths
                 emit(em, &message(&env, &[t.clone()], &[v.clone()], 1), nt);
                 // wire type a mutated version of the type (sub/supertypes and near misses), or a look-alike
-                for k in 0..6 {
+                for k in 0..8 {
                     // (with element types that differ, an empty vector is the known finding below: keep those apart)
                     crate::val::NONEMPTY_VECS.store(true, std::sync::atomic::Ordering::Relaxed);
-                    let t2 = keep_pairs(&t, &if k < 3 { mutate_type(r, &t, &vars, &cfg) } else { lookalike(r, &t) });
-                    if let Some((_, m2)) = gen_msg_s(r, &env, &t2, 4, 0, name.contains("Set")) { em.stat(if k < 3 { "wire.mutated" } else { "wire.lookalike" }); emit(em, &m2, true); }
+                    // k >= 6: one record field renumbered to a larger id (the receiver's field is missing, the sender's is surplus)
+                    let t2 = keep_pairs(&t, &if k < 3 { mutate_type(r, &t, &vars, &cfg) } else if k < 6 { lookalike(r, &t) } else { renumber_field(r, &t) });
+                    if let Some((_, m2)) = gen_msg_s(r, &env, &t2, 4, 0, name.contains("Set")) { em.stat(if k < 3 { "wire.mutated" } else if k < 6 { "wire.lookalike" } else { "wire.field-renumbered" }); emit(em, &m2, true); }
                 }
                 crate::val::NONEMPTY_VECS.store(true, std::sync::atomic::Ordering::Relaxed);
                 // definitions mutated as well (recursive types)
